@@ -31,6 +31,7 @@ type Client struct {
 	UndecodableFromProxy []string
 	Unsolicited          []string
 	ProxyID              int // which proxy instance it is connected to
+	LowestFree           bool // stream policy: always reuse the lowest free id (immediate reuse)
 }
 
 // ClientReq is one request frame sent by a client and everything that came back on its stream.
@@ -120,6 +121,13 @@ func briefMsg(m message.Message) string {
 // FreeStream returns a stream id with no outstanding request (streams are reused as soon as
 // they are answered).
 func (c *Client) FreeStream() int16 {
+	if c.LowestFree {
+		for s := int16(0); s >= 0; s++ {
+			if _, busy := c.Outstanding[s]; !busy {
+				return s
+			}
+		}
+	}
 	for i := 0; i < 32768; i++ {
 		s := c.nextStream
 		c.nextStream++
